@@ -83,7 +83,18 @@ def _r1(ctx):
         ok_acc = bool(inits) and any(U(r.value) == "True" and any(
             p and U(e) == name for e, p in C.facts_at(r)) for r in rets) and not any(
             U(r.value) == "True" and not C.facts_at(r) for r in rets)
-    ctx.check(ok_acc or bool(allc), "R1", "result is the conjunction over all positions", f.where(),
+    # the same conjunction as an early exit: inside the loop a failing position returns False, True is returned only after it
+    ok_early = False
+    if loops:
+        lp = loops[0]
+        rets = [r for r in ast.walk(f.node) if isinstance(r, ast.Return) and isinstance(r.value, ast.Constant)]
+        early = [r for r in rets if r.value.value is False and C.in_subtree(r, lp) and any(
+            (not p) and isinstance(e, ast.Call) and pm.call_name(e).endswith("_check_operands") for e, p in C.norm_fact_nodes(r, stop=lp))]
+        trues = [r for r in rets if r.value.value is True]
+        skip = cfg.reachable(lp, lp, avoid=[cfg.node_of(c) for c in calls if C.in_subtree(c, lp)], within=lp) if lp.body else True
+        ok_early = bool(early) and bool(trues) and all(not C.in_subtree(r, lp) and cfg.dominates(lp, r) for r in trues) \
+            and not any(isinstance(x, ast.Break) and C.enclosing_loop(x) is lp for x in ast.walk(lp)) and not skip
+    ctx.check(ok_acc or bool(allc) or ok_early, "R1", "result is the conjunction over all positions", f.where(),
               "the per-position results are not conjoined (True must require every position to agree)", f.qname,
               "conjunction")
 
@@ -287,7 +298,22 @@ def _r4(ctx, rule="R4", funcs=("ArchSemantics.assign_tp_lt", "ISASemantics.assig
                     ctx.ok(rule, inst, f.where(s["node"]))
     ctx.floor(rule, "primary look-ups", sites, floor)
     for cls in ("ArchSemantics", "ISASemantics"):
-        v = ctx.repo.cls(cls).class_attrs.get("GAS_SUFFIXES")
+        v = None
+        for _ in range(4):
+            # the attribute as the class sees it: its own definition, an inherited one, or an alias of another class's
+            for k in ctx.repo.mro(cls):
+                if "GAS_SUFFIXES" in ctx.repo.cls(k).class_attrs:
+                    v = ctx.repo.cls(k).class_attrs["GAS_SUFFIXES"]
+                    break
+            if isinstance(v, ast.Attribute) and isinstance(v.value, ast.Name) and v.value.id in ctx.repo.classes:
+                cls_, attr_ = v.value.id, v.attr
+                v = None
+                for k in ctx.repo.mro(cls_):
+                    if attr_ in ctx.repo.cls(k).class_attrs:
+                        v = ctx.repo.cls(k).class_attrs[attr_]
+                        break
+            if not isinstance(v, ast.Attribute):
+                break
         try:
             lit = C.literal(v) if v is not None else None
         except Exception:
